@@ -41,6 +41,36 @@ pub fn c13(log: &mut Log, seed: u64, tier: &str) {
     let ns: Vec<usize> = if thorough { vec![100_000, 1_000_000, 10_000_000] } else { vec![100_000, 1_000_000] };
     for &(geo, cells, gname) in &[(Some((64usize, 2usize)), 128usize, "64x2"), (None, 20000, "default")] {
         for &set in &[true, false] {
+            // a second key family: every key is followed by an extension of itself, so final
+            // states later gain transitions (variable-length keys, still bounded by 13 bytes)
+            for &n in &ns {
+                if n > 1_000_000 && !(set && gname == "64x2") {
+                    continue;
+                }
+                let maxstep = std::cmp::max(1, (16_000_000 / n) as u64);
+                let mut gen = KeyGen::new(seed + 7 + n as u64, maxstep * 2);
+                fst::raw::verif::set_geometry(geo);
+                let snap = alloc::begin();
+                let mut b = Builder::new(io::sink()).unwrap();
+                let mut ext = [b'a'; KEYLEN + 1];
+                for i in 0..(n / 2) {
+                    let (k, c) = gen.next();
+                    ext[..KEYLEN].copy_from_slice(k);
+                    ext[KEYLEN] = SYMS[i % 4];
+                    if set {
+                        b.add(&ext[..KEYLEN]).unwrap();
+                        b.add(&ext[..]).unwrap();
+                    } else {
+                        b.insert(&ext[..KEYLEN], c * 2).unwrap();
+                        b.insert(&ext[..], c * 2 + 1).unwrap();
+                    }
+                }
+                let (live, peak, allocs) = alloc::read(&snap);
+                b.finish().unwrap();
+                fst::raw::verif::set_geometry(None);
+                log.ev(json!({"ev": "Mem", "what": "build", "scenario": format!("build-prefixkeys-{}-{}", if set { "set" } else { "map" }, gname),
+                              "n": n, "k": 1, "cells": cells, "maxFan": 4, "maxKeyLen": KEYLEN + 1, "live": jn(live), "peak": jn(peak), "allocs": jn(allocs)}));
+            }
             for &n in &ns {
                 // 4^12 keys exist: keep the counter below that
                 let maxstep = std::cmp::max(1, (16_000_000 / n) as u64);
@@ -185,8 +215,12 @@ pub fn c14(log: &mut Log, seed: u64, tier: &str) {
             log.ev(json!({"ev": "Mem", "what": "search", "scenario": "search", "n": n, "k": 1, "maxKeyLen": KEYLEN, "peak": jn(peak), "allocs": jn(allocs), "items": items}));
         }
         // set operations over k FSTs of n/k keys each
-        for &k in &[2usize, 4, 8] {
-            let parts: Vec<Vec<u8>> = (0..k).map(|j| build_map(n / k, seed + 100 + j as u64, std::cmp::max(1, (16_000_000 / (n / k)) as u64 / 2))).collect();
+        for &(k, shared) in &[(2usize, false), (4, false), (8, false), (2, true), (4, true), (3, true)] {
+            // disjoint-ish inputs (different key sequences) or the same keys in every input, so
+            // that long runs of keys are held by all (an even / odd number of) streams
+            let parts: Vec<Vec<u8>> = (0..k)
+                .map(|j| build_map(n / k, seed + 100 + if shared { 0 } else { j as u64 }, std::cmp::max(1, (16_000_000 / (n / k)) as u64 / 2)))
+                .collect();
             let fsts: Vec<Fst<&[u8]>> = parts.iter().map(|b| Fst::new(&b[..]).unwrap()).collect();
             for op in &["union", "intersection", "difference", "symmetric_difference"] {
                 let snap = alloc::begin();
@@ -212,7 +246,7 @@ pub fn c14(log: &mut Log, seed: u64, tier: &str) {
                     }
                 }
                 let (_, peak, allocs) = alloc::read(&snap);
-                log.ev(json!({"ev": "Mem", "what": "op", "scenario": format!("{}-k{}", op, k), "n": n, "k": k, "maxKeyLen": KEYLEN, "peak": jn(peak), "allocs": jn(allocs), "items": items}));
+                log.ev(json!({"ev": "Mem", "what": "op", "scenario": format!("{}-k{}{}", op, k, if shared { "-shared" } else { "" }), "n": n, "k": k, "maxKeyLen": KEYLEN, "peak": jn(peak), "allocs": jn(allocs), "items": items}));
             }
         }
     }
